@@ -47,7 +47,13 @@ def eval_text(eng, st, fid, text, extra=None):
                 if isinstance(t, dict):
                     eng.setvar(st, sub, k, _opaque_def(eng, st, sub, k, t))
                 else:
-                    eng.setvar(st, sub, k, eng.eval1(parse_expr(t), st, sub))
+                    try:
+                        eng.setvar(st, sub, k, eng.eval1(parse_expr(t), st, sub))
+                    except Unsupported as e_:
+                        # a value definition over ghosts that are not bound yet (callee ghosts are
+                        # evaluated one by one): left undefined for this clause
+                        if "unbound name" not in str(e_):
+                            raise
         try:
             rs = eng.eval_fork(node, st, sub)
         except Unsupported as e:
